@@ -558,6 +558,37 @@ def one(case):
     if st == 99:
         return [{'input': dict(inp, **{'class': 'hang'}), 'got': 'more than 50000 reads', 'want': 'termination'}]
     return footprint(srv, net, skip, st, out, inp)
+def ssh1_case(second):
+    """an SSH-1-only server: it answers an SSH-2 identification with 'Protocol major versions differ.' and closes; the tool retries once with SSH-1"""
+    from ssh_audit.writebuf import WriteBuf
+    from ssh_audit.ssh1 import SSH1
+    import struct as _s
+    w = WriteBuf()
+    w.write_byte(2); w.write(b'\x88\x99\xaa\xbb\xcc\xdd\xee\xff')
+    w.write_int(1024).write_mpint1(0x10001).write_mpint1((1 << 1023) | 12345)
+    w.write_int(2048).write_mpint1(0x10001).write_mpint1((1 << 2047) | 54321)
+    w.write_int(2); w.write_int(72); w.write_int(36)
+    payload = w.write_flush()
+    pad = b'\x00' * (-(len(payload) + 4) %% 8)
+    pkt = _s.pack('>I', len(payload) + 4) + pad + payload + _s.pack('>I', SSH1.crc32(pad + payload))
+    peer = F.Peer('healthy', banner=b'SSH-1.5-OpenSSH_1.2.3\r\n')
+    closed = []
+    def script(n):
+        if second == 'always-differs' or n == 0:
+            return [peer.banner, b'Protocol major versions differ.\n']
+        return [peer.banner, pkt] if second == 'pkm' else [peer.banner] if second == 'close' else [peer.banner, b'\x00' * 40]
+    peer.script = script
+    net = F.FakeNet({'s.test': peer})
+    net.recv_budget = 50000
+    st, out = F.run_main(['-n', '--skip-rate-test', 's.test'], net)
+    inp = {'class': 'ssh1-fallback', 'server': 'SSH-1 only', 'second connection': second}
+    fails = []
+    if st == 99 or peer.connections > 2:
+        fails.append({'input': inp, 'got': {'connections': peer.connections, 'status': st}, 'want': 'at most 2 connections (one retry with the SSH-1 identification)'})
+    open_ = [i for i, sk in enumerate(net.sockets) if sk.chunks is not None and not sk.closed]
+    if open_:
+        fails.append({'input': dict(inp, **{'class': 'ssh1-left-open'}), 'got': {'sockets left open': len(open_), 'of': len(net.sockets)}, 'want': 'every connection closed at exit'})
+    return fails
 work = []
 trip = fault_triples(TIER)
 for i, (cert, n, stage, fault) in enumerate(trip):
@@ -577,6 +608,9 @@ for kexl in KEXL:
                 work.append(('cfg', kexl, keys, moduli, style, skip, False))
             work.append(('cfg', kexl, keys, moduli, style, True, True))
 res = run_pool(one, work)
+for second in ('pkm', 'close', 'garbage', 'always-differs'):
+    res.append(ssh1_case(second))
+work.extend(['ssh1'] * 4)
 failures, per = [], {}
 for fl in res:
     for f in fl:
